@@ -479,9 +479,10 @@ def oracle(op: str, out: str):
         rec = impl("msg_recover %s %s %s %d" % (net, cfg, tx(sig), z))
         if rec != "ok %d,%d %d" % (Q[0], Q[1], 1 if comp else 0):
             return "recovered key is not the signer: " + rec[:200]
-        Q2 = ref_pub(d + 1 if d + 1 < _Ref.n else 1)
+        Q2 = ref_pub(d + 1 if d + 1 < _Ref.n - 1 else 1)
         other_addr = _net(net).keys.private(d, is_compressed=not comp).address()
-        for what, spec, t in (("another key", "p:%d,%d" % Q2, text), ("the other compression's address", "a:" + tx(other_addr), text),
+        for what, spec, t in (("another key", "p:%d,%d" % Q2, text), ("the negated key (same x)", "p:%d,%d" % (Q[0], _Ref.p - Q[1]), text),
+                              ("the other compression's address", "a:" + tx(other_addr), text),
                               ("another message", qspec, text + " "), ("another message", "a:" + tx(addr), "x" + text)):
             v = impl("msg_verify %s %s %s %s %s" % (net, cfg, spec, tx(sig), tx(t)))
             if v != "ok 0":
@@ -726,6 +727,8 @@ def gen(ctx, emit):
             V(_mk_sig(31, r, ss), rng.choice(specs))
             V(_mk_sig(33, pt_r, ss), rng.choice(specs))
         V(_mk_sig(31, r, n - s))            # the other s: recovers another key
+        V(good, "p:%d,%d" % (Q0[0], p - Q0[1]))   # the negated key: same x, other y
+        V(good); V(good, specs[1])
         # other lengths, padding variants, junk
         raw = bytes([31]) + r.to_bytes(32, "big") + s.to_bytes(32, "big")
         for blob in (b"", raw[:1], raw[:64], raw + b"\0", raw + raw, raw[:32], raw[1:]):
@@ -753,6 +756,16 @@ def gen(ctx, emit):
             V(_mk_sig(27 + odd + 4, hi_pt, sh), "p:%d,%d" % Qh)   # same r, s without the +n: another key or none
             emit("msg_recover %s %s %s %d" % (net, cfg, tx(sig_h), z0))
             assert Rh is not None
+        # digests at and above the group order (msg_hash= form): signatures made with the reference arithmetic
+        for zz in (n - 1, n, n + 5, two256 - 1):
+            kz = 0xC0FFEE + zz % 1000
+            Rz = _Ref.mul(kz, _Ref.G)
+            rz = Rz[0] % n
+            sz = pow(kz, -1, n) * (zz + d0 * rz) % n
+            sig_z = _mk_sig(27 + 4 + (Rz[1] & 1) + (2 if Rz[0] >= n else 0), rz, sz)
+            emit("msg_verify_h %s %s %s %s %d" % (net, cfg, specs[0], tx(sig_z), zz))
+            emit("msg_verify_h %s %s %s %s %d" % (net, cfg, specs[1], tx(sig_z), zz))
+            emit("msg_recover %s %s %s %d" % (net, cfg, tx(sig_z), zz))
         # the msg_hash= form, including hash 0 and None
         for zz in (0, 1, z0, n, two256 - 1):
             emit("msg_verify_h %s %s %s %s %d" % (net, cfg, specs[0], tx(good), zz))
@@ -784,7 +797,7 @@ def gen(ctx, emit):
             sig = _mk_sig(rng.choice([29, 30, 33, 34]), rr, rng.randrange(1, n))
         emit("msg_verify %s %s %s %s %s" % (net, cfg, spec, tx(sig), tx("m")))
     # random well-formed signatures (recover some key): verify answers False for the fixed key, never raises
-    for _ in range(ctx.n(16, 1500)):
+    for _ in range(ctx.n(16, 500)):
         net, cfg = rng.choice(NETS), rng.choice(CONFIGS)
         sig = _mk_sig(rng.randrange(27, 35), _point_r(rng.randrange(1, n)), rng.randrange(1, n))
         emit("msg_verify %s %s %s %s %s" % (net, cfg, rng.choice(key_specs), tx(sig), tx(rand_text(rng, 10))))
@@ -797,7 +810,7 @@ def gen(ctx, emit):
     for net, cfg, d, comp, text in corner:
         emit("msg_sign %s %s %d %d 0 %s" % (net, cfg, d, 1 if comp else 0, tx(text)))
         emit("msg_sign %s %s %d %d 1 %s" % (net, cfg, d, 1 if comp else 0, tx(text)))
-    for i in range(ctx.n(36, 3000)):
+    for i in range(ctx.n(36, 600)):
         net, cfg = NETS[i % len(NETS)], CONFIGS[(i // 2) % 2]
         d, comp, text = rand_d(rng), rng.random() < 0.5, rand_message(rng)
         verbose = rng.random() < 0.4
